@@ -23,7 +23,15 @@ def run_seed(args):
         return sid, {"error": "patch failed: " + r.stdout + r.stderr}
     env = dict(os.environ, SCPI_REPO=repo, SCPI_EVIDENCE_DIR=base + "/evidence", SCPI_VERIF_CACHE=base + "/cache")
     res = {}
-    for p in props:
+    todo = props
+    if os.environ.get("OWN_ONLY"):
+        todo = [sid.split("-")[0][:3]] if sid[0] == "C" else props
+    if os.environ.get("NEWRULES"):
+        pr = subprocess.run(["python3", os.path.join(SNAP, "tools", "new_rules_check.py")], env=env, capture_output=True, text=True)
+        out = pr.stdout + pr.stderr
+        res["NEW"] = {"rc": pr.returncode, "rules": sorted(set(re.findall(r"^\[NEW\] (R[\w.]+|internal|anchor): ", out, flags=re.M))), "lines": [l for l in out.splitlines() if l.startswith(("[NEW]", "    "))][:8]}
+        todo = os.environ.get("NEWRULES").split() if os.environ.get("NEWRULES") != "1" else []
+    for p in todo:
         pr = subprocess.run([os.path.join(SNAP, "check"), p], env=env, capture_output=True, text=True)
         out = pr.stdout + pr.stderr
         viol = re.findall(r"^\[%s\] (R[\w.]+): " % p, out, flags=re.M)
@@ -57,7 +65,7 @@ def main():
     path = os.path.join(VERIF, CORPUS, "MATRIX.json")
     old = json.load(open(path)) if os.path.exists(path) else {}
     for k_, v_ in table.items():
-        if isinstance(old.get(k_), dict) and isinstance(v_, dict) and 'error' not in v_ and os.environ.get('PROPS'):
+        if isinstance(old.get(k_), dict) and isinstance(v_, dict) and 'error' not in v_ and (os.environ.get('PROPS') or os.environ.get('OWN_ONLY') or os.environ.get('NEWRULES')):
             old[k_].update(v_)
         else:
             old[k_] = v_
